@@ -283,11 +283,33 @@ func (c *checkSchema) collectAllowedJsonTypes(node ischema.Node, ss map[string]i
 
 	for _, typeName := range typesConstraint.(*constraint.TypesList).Names() {
 		if _, ok := c.foundTypeNames[typeName]; ok {
-			panic(errs.ErrImpossibleToDetermineTheJsonTypeDueToRecursion.F(typeName))
+			panic(errs.ErrImpossibleToDetermineTheJsonTypeDueToRecursion.F(c.reportableTypeName(typeName)))
 		}
 		c.foundTypeNames[typeName] = struct{}{}
 		c.collectAllowedJsonTypes(getType(typeName, c.rootSchema, ss).RootNode(), ss) // can panic
 	}
+}
+
+// reportableTypeName returns the name to show to the user for a type found
+// during the recursion check. Unnamed types (the alternatives of an "or" rule)
+// are registered under a name made of a heap address, which means nothing to the
+// user and differs from run to run: the first (in name order) named type met on
+// the way is reported instead.
+func (c *checkSchema) reportableTypeName(name string) string {
+	if len(name) == 0 || name[0] != '#' {
+		return name
+	}
+	named := make([]string, 0, len(c.foundTypeNames))
+	for n := range c.foundTypeNames {
+		named = append(named, n)
+	}
+	sort.Strings(named)
+	for _, n := range named {
+		if len(n) > 0 && n[0] != '#' {
+			return n
+		}
+	}
+	return "or"
 }
 
 func (c *checkSchema) checkAdditionalPropertiesConstraint(node ischema.Node, ss map[string]ischema.Type) {
